@@ -324,6 +324,23 @@ theorem C13_latest_write_survives_flush_commit_evict_reopen (H : RootPre → Str
   rw [getState_peek, commit_keeps_reads H (writes ws l) l1 h hC hc hacc1 a k, ← getState_peek]
   exact C13_block_writes_survive_flush H l hno ws a k
 
+/-- **balances and nonces through evictions and reopen**: in a ledger whose inner-account cache agrees with the database (`InnerDb`;
+evaluated by the model driver at every eviction and reopen) dropping an account's cache entry leaves balance and nonce of every
+account as they read before, and so does closing and reopening a ledger that is between two blocks -/
+theorem C13_inner_eviction_keeps_balance_and_nonce (l : L) (h : InnerDb l) (a b : Addr) :
+    (getBalance { l with cache := { l.cache with inner := KV.erase l.cache.inner a } } b).2 = (getBalance l b).2 ∧
+    (getNonce { l with cache := { l.cache with inner := KV.erase l.cache.inner a } } b).2 = (getNonce l b).2 := by
+  rw [getBalance_peek, getBalance_peek, getNonce_peek, getNonce_peek,
+    inner_agree_of_innerDb l { l with cache := { l.cache with inner := KV.erase l.cache.inner a } } rfl rfl h (h.evict a) b]
+  exact ⟨rfl, rfl⟩
+
+theorem C13_reopen_keeps_balance_and_nonce (l l2 : L) (hno : l.accounts = []) (h : InnerDb l) (hr : reopen l = some l2) (b : Addr) :
+    (getBalance l2 b).2 = (getBalance l b).2 ∧ (getNonce l2 b).2 = (getNonce l b).2 := by
+  obtain ⟨r1, r2, r3⟩ := reopen_facts l l2 hr
+  have h2 : InnerDb l2 := by intro a ia ha; rw [r2] at ha; simp [KV.get] at ha
+  rw [getBalance_peek, getBalance_peek, getNonce_peek, getNonce_peek, inner_agree_of_innerDb l l2 (by rw [r1, hno]) r3 h h2 b]
+  exact ⟨rfl, rfl⟩
+
 /-- an empty ledger meets it -/
 example : CacheDb ({} : L) := by intro a m k v hm _; simp [KV.get] at hm
 
